@@ -46,12 +46,14 @@ META = {
                  "update call | scaling arm)",
     "trusted_base": ["python ast", "sa.core (loader, astutil, cfg)",
                      "transparent-operation table (copy/T/tocsc/optimized_compressed_storage/bmat/product keep the kind)"],
-    "assumptions": ["projection fields are written only inside MortarGrid (thorough tier sweeps src/porepy for outside writes)",
+    "assumptions": ["R3/R4 are decided for MortarGrid's own methods; writers outside the class (today two functions of "
+                    "fracs/wells_3d.py) are enumerated by the thorough-tier sweep and reported as notes, one of them "
+                    "(_add_interface) overwrites _primary_to_mortar_int after construction without _set_projections()",
                     "integrated and averaged maps coincide on matching grids, which is why _init_projections may copy one into the other",
                     "sparse_array_to_row_col_data returns (rows, cols, data): only `data` carries weights"],
     "technique": "sibling agreement + reaching-definition taint (kind lattice {int, avg}) on a statement CFG",
 }
-MIN_INSTANCES = {"R1": 8, "R2": 8, "R3": 13, "R4": 10, "R5": 3, "R6": 5}
+MIN_INSTANCES = {"R1": 8, "R2": 8, "R3": 16, "R4": 14, "R5": 3, "R6": 5}
 
 
 # ---------------------------------------------------------------------------------------
@@ -688,7 +690,7 @@ def _r5(ctx: Ctx, meths: dict) -> None:
                   f"{c.func.attr}({', '.join(k + '=' + u(v) for k, v in args.items())})",
                   construct=f"position {pos}: {u(c)}", facts={"position": pos, "args": {k: u(v) for k, v in args.items()}})
     missing = {"update_primary", "update_secondary", "update_mortar"} - found
-    if missing:
+    if missing and not any(fd.rule == "R5" for fd in ctx.findings):
         raise AnchorError(f"{MD}:{q}: no call to {sorted(missing)}")
 
 
@@ -776,14 +778,29 @@ def run(ctx: Ctx) -> None:
     if ctx.tier == "thorough":
         n = 0
         for m in ctx.repo.modules("src/porepy"):
-            for node in ast.walk(m.tree):
-                if isinstance(node, (ast.Assign, ast.AugAssign, ast.AnnAssign)):
-                    for t in assigned_targets(node):
-                        if isinstance(t, ast.Attribute) and FIELD_RE.match(t.attr) and not (
-                                m.rel == MG or (m.rel.endswith("grid_operators.py") and u(t.value) == "self")):
-                            n += 1
-                            ctx.note(f"sweep: {m.rel}:{node.lineno}: projection field written outside MortarGrid: {u(t)}")
-        ctx.note(f"sweep: {n} writes to _X_to_Y_k fields outside mortar_grid.py (R3/R4 assume none)")
+            if m.rel == MG:
+                continue
+            for qn, fdef in m.functions():
+                writes = []
+                for node in walk_local(fdef):
+                    if isinstance(node, (ast.Assign, ast.AugAssign, ast.AnnAssign)):
+                        for t in assigned_targets(node):
+                            if isinstance(t, ast.Attribute) and FIELD_RE.match(t.attr) and u(t.value) != "self":
+                                writes.append((node, t))
+                if not writes:
+                    continue
+                ff = Fn(fdef, m.rel, qn)
+                for node, t in writes:
+                    n += 1
+                    recv = u(t.value)
+                    calls = {ff.node(ff.stmt_of(c)) for c in walk_local(fdef) if isinstance(c, ast.Call)
+                             and u(c.func) == f"{recv}._set_projections"}
+                    ok = bool(calls) and ff.cfg.every_path_passes(ff.node(node), cfgmod.EXIT, calls)
+                    ctx.note(f"sweep: {m.rel}:{node.lineno} {qn}: writes {u(t)} outside MortarGrid; "
+                             + ("followed by _set_projections() on every path" if ok else
+                                "NOT followed by _set_projections(): the derived mortar_to_* maps and the twin field keep "
+                                "their previous value (reported, not armed)"))
+        ctx.note(f"sweep: {n} writes to _X_to_Y_k fields outside mortar_grid.py (R3/R4 are decided for MortarGrid's own methods)")
         ctx.note("observation: sparse_kronecker_product(matrix, 1) returns `matrix` itself, so accessors with nd=1 hand out the "
                  "stored field (aliasing) - callers must not modify it in place")
 
@@ -819,9 +836,10 @@ MUTANTS = [
        "        self._set_projections(secondary=False)\n", "R3"),
     _m("update-primary-forgets-avg",
        "        self._primary_to_mortar_avg = self._primary_to_mortar_avg * split_matrix_avg\n", "", "R3"),
-    _m("update-mortar-set-projections-before-assign",
-       "        # We need to update mappings from both primary and secondary.\n",
-       "        self._set_projections()\n        return_early = self.dim == 1\n", "R3", count=1),
+    dict(name="update-mortar-set-projections-before-assign", rule="R3", control=False, edits=[
+        dict(file=MG, old="        # Also update the other mappings\n        self._set_projections()\n", new="", count=1),
+        dict(file=MG, old="        # We need to update mappings from both primary and secondary.\n",
+             new="        self._set_projections()\n", count=1)]),
     # taint
     _m("update-mortar-int-from-averaged",
        "                mat_int = pp.match_grids.match_1d(new_g, g, tol, scaling=\"integrated\")",
